@@ -2155,16 +2155,17 @@ return 1;""",
         PyObj = fmt_func.PY_PyObject
         if "type" in node.python:
             selected = node.python["type"][:]
-            for auto in ["del"]:
+            for auto in ["del", "dealloc"]:
                 # Make some methods are there
                 if auto not in selected:
                     selected.append(auto)
         else:
-            selected = ["del"]
+            selected = ["del", "dealloc"]
 
         # Dictionary of methods for bodies
         default_body = dict(richcompare=self.not_implemented)
         default_body["del"] = self.tp_del
+        default_body["dealloc"] = self.tp_dealloc
 
         self._push_splicer("type")
         for typename in typenames:
@@ -2959,6 +2960,14 @@ setup(
         self.process_member_obj(
             node, "Py_XDECREF(self->{PY_member_data});", output)
         return output
+
+    def tp_dealloc(self, node, msg, ret):
+        """default method for tp_dealloc.
+        Python never calls tp_del of a static type:
+        release the wrapped object when the Python object is deallocated.
+        """
+        return self.tp_del(node, msg, ret) + [
+            "Py_TYPE(self)->tp_free((PyObject *) self);"]
 
     def init_member_obj(self, node):
         """Update fmt for members of struct-as-class.
